@@ -261,6 +261,8 @@ func checkC12(c *Ctx) {
 	r.Rule("R12e", "who-may-refuse: no error-constructing site outside the documented rule functions; mains hand Generate()'s error to protogen", 6)
 
 	c12Scenarios(c)
+	r.Rule("R12h", "the shared path-variable parser reports every {…} segment of a route as a variable, whatever it contains: the 'no matching field' rule sees each of them (a brace segment it does not see is emitted as an unbound literal route segment)", 6)
+	c12BraceSegments(c, "R12h")
 	memo := map[[2]*types.Func]bool{}
 	annPk := c.P.Pkg("internal/annotations")
 	if annPk == nil {
@@ -792,4 +794,70 @@ func swallowShape(why string) string {
 		}
 	}
 	return why[:i] + "(" + cond + ")"
+}
+
+// c12BraceSegments — R12h. annotations.ExtractPathParams, interpreted on constant routes (its regular expression is read
+// from the package-level initialiser and applied to the constant subject): every brace segment is returned, in order.
+func c12BraceSegments(c *Ctx, rid string) {
+	r := c.R
+	fn := c.P.Func("internal/annotations", "ExtractPathParams")
+	if fn == nil {
+		r.Unres(rid, "ExtractPathParams", "", "not found")
+		return
+	}
+	pos := c.P.Pos(c.P.Decls[fn].Pos())
+	prev := c.W.Concrete
+	c.W.Concrete = true
+	defer func() { c.W.Concrete = prev }()
+	for _, tc := range []struct {
+		path string
+		want []string
+	}{
+		{"/zq/{zid}", []string{"zid"}},
+		{"/zq/{user_id}/posts/{post-id}", []string{"user_id", "post-id"}},
+		{"/zq/{book.id}", []string{"book.id"}},
+		{"/zq/{name=books/*}", []string{"name=books/*"}},
+		{"/zq/{book_id:[0-9]+}", []string{"book_id:[0-9]+"}},
+		{"/zq/{ünï}/{a b}", []string{"ünï", "a b"}},
+		{"/zq/plain", nil},
+	} {
+		run := c.W.NewRun(map[string]int{}, false)
+		run.InlineAll, run.FollowSlices = true, true
+		run.CallHook = c.cdescHook
+		run.StartArgs(fn, map[string]Val{"path": constStr(tc.path)})
+		key := fmt.Sprintf("ExtractPathParams(%q) = %q", tc.path, tc.want)
+		if len(run.Used) > 0 || len(run.Problems) > 0 {
+			r.Undec(rid, key, pos, fmt.Sprintf("interpretation left decisions open: %v %v", usedKeys(run), run.Problems))
+			continue
+		}
+		var got []string
+		okList := true
+		switch v := run.Result.(type) {
+		case VList:
+			if v.Elems == nil {
+				okList = false
+			}
+			for _, e := range v.Elems {
+				sv, ok := e.(VStr)
+				if !ok {
+					okList = false
+					continue
+				}
+				cs, ok := sv.isConst()
+				if !ok {
+					okList = false
+				}
+				got = append(got, cs)
+			}
+		case VNil:
+		default:
+			okList = false
+		}
+		if !okList {
+			r.Undec(rid, key, pos, "result is not a list of constants: "+valText(run.Result))
+			continue
+		}
+		r.Check(strings.Join(got, "\x00") == strings.Join(tc.want, "\x00"), rid, key, pos,
+			fmt.Sprintf("ExtractPathParams(%q) returns %q, the route has the brace segments %q: a segment that is not reported is never checked against the request message's fields, the definition is accepted and the files carry an unbound literal {…} route segment", tc.path, got, tc.want))
+	}
 }
